@@ -135,6 +135,7 @@ def c05(ctx):
     return [
         rt_job(ctx, 'utf8', [H(ctx, 'C05', 'utf8_h.go')], unwind=12, deadline_s=600 if q else 2400),
         rt_job(ctx, 'slice', [H(ctx, 'C05', 'slice_h.go')], unwind=100, deadline_s=600 if q else 2400),
+        rt_job(ctx, 'string', [H(ctx, 'C05', 'string_h.go')], unwind=40, deadline_s=600 if q else 2400),
     ]
 
 
